@@ -73,8 +73,8 @@ func c20Scenarios(tier string) []*Scenario {
 			c1, c2 := ops[i], ops[j]
 			c1.When, c2.When = launched, launched
 			tb := 1
-			if tier != "thorough" && (c1.Op == "scale" || c2.Op == "scale" || c1.Op == "update" || c2.Op == "update") {
-				tb = 0 // the heavy pairs: no free timer choice in quick mode
+			if tier != "thorough" && (c1.Op == "scale" || c2.Op == "scale" || c1.Op == "update" || c2.Op == "update") && c1.Op != "restart" && c2.Op != "restart" {
+				tb = 0 // the heavy pairs: no free timer choice in quick mode (restart is the only request that sleeps)
 			}
 			sc := &Scenario{
 				ID:   "c20-" + label(c1) + "|" + label(c2),
